@@ -544,6 +544,7 @@ theorem C14_bezier (tol : K) (pts : Mat K) (quadratic relative : Bool) (b : Basi
     · exact absurd h (by simp)
     · rename_i b' hb
       obtain ⟨ho, hk, hper, _⟩ := Basis.mk?_ok_c14 _ _ _ _ _ hb
+      rw [Basis.cummax_of_pairwise _ sp2] at hk
       split at h
       · exact absurd h (by simp [throw, throwThe, MonadExceptOf.throw])
       · rename_i hsz
@@ -558,6 +559,7 @@ theorem C14_bezier (tol : K) (pts : Mat K) (quadratic relative : Bool) (b : Basi
     · exact absurd h (by simp)
     · rename_i b' hb
       obtain ⟨ho, hk, hper, _⟩ := Basis.mk?_ok_c14 _ _ _ _ _ hb
+      rw [Basis.cummax_of_pairwise _ sp2] at hk
       split at h
       · exact absurd h (by simp [throw, throwThe, MonadExceptOf.throw])
       · rename_i hsz
